@@ -69,3 +69,31 @@ Proof.
   match goal with H : rg_alts r = _ |- _ => rewrite <- H end.
   apply (gate_holds St cb (mkHandler (rg_alts r) rest) st Hrest).
 Qed.
+
+(* the registration table is exactly the list of annotated methods (hidden ones included), in
+   emission order: nothing missing, nothing extra, each handler invoking its own method of its
+   own controller *)
+Definition reg_key (r : registration) := (rg_verb r, rg_url_lit r, rg_ctrl_type r, rg_invokes r).
+Definition route_key (cm : controller * method) :=
+  (m_verb (snd cm), c_route (fst cm) ++ m_route (snd cm), c_name (fst cm), [m_name (snd cm)]).
+
+Lemma table_aux cfg : forall (rs : list (controller * method)) (regs : list registration),
+  List.length regs = List.length rs ->
+  forallb (fun x => reg_matches cfg (fst (fst x)) (snd (fst x)) (snd x)) (combine rs regs) = true ->
+  map reg_key regs = map route_key rs.
+Proof.
+  induction rs as [|cm rs IH]; intros [|r regs] Hlen Hall; simpl in *; try discriminate; auto.
+  apply andb_true_iff in Hall as [Hm Hall].
+  rewrite (IH regs ltac:(lia) Hall). f_equal.
+  unfold reg_matches in Hm. repeat (apply andb_true_iff in Hm as [Hm ?]).
+  repeat match goal with H : str_eqb _ _ = true |- _ => apply str_eqb_spec in H end.
+  match goal with H : list_eqb str_eqb _ _ = true |- _ => apply (list_eqb_spec str_eqb str_eqb_spec) in H end.
+  unfold reg_key, route_key. destruct cm as [c m]. simpl in *. congruence.
+Qed.
+
+Theorem router_ok_table (p : project) (regs : list registration) :
+  router_ok p regs = true -> map reg_key regs = map route_key (routes_of p).
+Proof.
+  unfold router_ok. rewrite andb_true_iff, Nat.eqb_eq. intros [Hlen Hall].
+  eapply table_aux; eauto.
+Qed.
